@@ -203,4 +203,32 @@ PROPS = {
         ],
         floor_quick=5000, floor_thorough=200000,
     ),
+    "C17": P(
+        title="every call awaiting a reply completes exactly once",
+        level="exploration",
+        technique="stateful model-based testing of one private DBusConnection against a scripted raw peer under a harness-owned main loop and virtual clock: libFuzzer-generated schedules of calls, replies (any order, duplicated, unknown, split), time steps, cancel, block, dispatch, notify, steal and peer close vs. a per-call completion model",
+        level_text=("Exploration: up to 40 calls per history with timeouts of 1 s, 6 s, 30 s, default and infinite; the raw peer answers in any order, twice, for unknown serials, in two partial "
+                    "writes; virtual time passes in steps that let short timeouts fire while replies sit unread; calls are cancelled, blocked on, given a notify before or after completion, their "
+                    "replies stolen; the peer closes with calls outstanding. After every step get_completed of every call must equal the model, a notify set while pending must have run exactly once "
+                    "iff completed and never for a cancelled call, replies that pair with no pending call must reach ordinary dispatch (a filter records them) and paired ones must not, stolen "
+                    "replies must carry the call's serial and come from the peer or be a local NoReply/Disconnected/Timeout error, serials are non-zero and distinct."),
+        level_note="Single thread: the clause 'from several threads' is not attacked by this check (no multi-thread stress built; see DESIGN.md section 5); timeouts run under the virtual clock (hooks H1/H2), dbus_pending_call_block is only invoked when it can terminate.",
+        rule=("case = schedule decoded from fuzzer input. Non-trivial = >=2 outstanding calls and (out-of-order or duplicate replies, or time passing / cancel while replies are written but unread, or peer close with calls outstanding); distinct = FNV-1a of the log."),
+        phases=[P(kind="fuzz", bin="c17_pending", runs_quick=100000, runs_thorough=20000000, workers_quick=8, workers_thorough=16, max_len=512, rss=4000, timeout=60)],
+        floor_quick=800, floor_thorough=50000,
+    ),
+    "C20": P(
+        title="object-path handlers: exact path, then nearest fallback",
+        level="exploration",
+        technique="stateful model-based testing of one DBusConnection with a scripted raw peer: libFuzzer-generated register / register-fallback / unregister / incoming-call / list histories against a path-map model",
+        level_text=("Exploration: histories over 12 pool paths with shared prefixes and adjacently sorting siblings ('/', '/a', '/a/b', '/a/b/c', '/a/bb', '/a/b_', '/ab', '/a/B', '/a/b0' ...), handlers that "
+                    "handle or decline, registered exactly or as fallbacks, unregistered in the middle of histories; incoming method calls to paths inside, beside and below the registrations written by "
+                    "a raw peer. The recorded handler invocation order must be: exact handler, then fallbacks of successively shorter ancestors, stopping at the first HANDLED; with no taker the "
+                    "reply read from the socket must be UnknownMethod iff the path is registered, an ancestor of a registered path or below a fallback registration, else UnknownObject; registering "
+                    "an occupied path must fail with ObjectPathInUse and change nothing; dbus_connection_list_registered must list exactly the model's immediate children."),
+        level_note="One connection, one thread; built-in Introspect/Peer replies are not generated; unregistering an unregistered path is a documented caller error and not generated. Trusts the 30-line model in targets/c20_objpath.cc.",
+        rule=("case = history decoded from fuzzer input. Non-trivial = >=3 registrations sharing a prefix and a call with >=2 candidate handlers; distinct = FNV-1a of the log."),
+        phases=[P(kind="fuzz", bin="c20_objpath", runs_quick=160000, runs_thorough=30000000, workers_quick=8, workers_thorough=16, max_len=512, rss=4000, timeout=60)],
+        floor_quick=2000, floor_thorough=200000,
+    ),
 }
